@@ -7,6 +7,7 @@ package main
 import (
 	"encoding/json"
 	"fmt"
+	"os"
 	"sort"
 	"strings"
 	"time"
@@ -40,6 +41,7 @@ type childLine struct {
 	Metrics map[string]float64 `json:"metrics,omitempty"` // delta per "name{labelvalues}"
 	Timeout bool               `json:"timeout,omitempty"`
 	Err     string             `json:"err,omitempty"`
+	Us      int64              `json:"us,omitempty"` // duration of the command (diagnostics)
 }
 
 func metricSnapshot(reg *prometheus.Registry, names []string) map[string]float64 {
@@ -87,8 +89,13 @@ func runCaseInChild(tc *testCase, ci int, from int, onlyOne bool, io *core.Child
 		return err
 	}
 	io.Log(childLine{T: "start", Case: ci, Ev: from})
+	tStart := time.Now()
+	trace := os.Getenv("VERIF_C17_TRACE") != ""
 
-	info := fd.DefaultPluginRegistry.Get(pipeline.PluginKindAction, "mask")
+	info, err := fd.DefaultPluginRegistry.Get(pipeline.PluginKindAction, "mask")
+	if err != nil {
+		return err
+	}
 	config, err := pipeline.GetConfig(info, cfgJSON, nil)
 	if err != nil {
 		io.Log(childLine{T: "res", Case: ci, Ev: -1, Err: "config rejected: " + err.Error()})
@@ -136,12 +143,22 @@ func runCaseInChild(tc *testCase, ci int, from int, onlyOne bool, io *core.Child
 		outCh <- e.Root.EncodeToString()
 	})
 	p.Start()
-	defer p.Stop()
+	if trace {
+		fmt.Fprintf(os.Stderr, "case %d: started in %v\n", ci, time.Since(tStart))
+	}
+	defer func() {
+		t := time.Now()
+		p.Stop()
+		if trace {
+			fmt.Fprintf(os.Stderr, "case %d: stop took %v, whole case %v\n", ci, time.Since(t), time.Since(tStart))
+		}
+	}()
 
 	names := watchedMetrics(&tc.Config)
 	prev := metricSnapshot(reg, names)
 	for ei := from; ei < len(tc.Events); ei++ {
 		io.Log(childLine{T: "cmd", Case: ci, Ev: ei})
+		t0 := time.Now()
 		input.In(0, "c17.log", pipeline.NewOffsets(int64(ei), nil), []byte(tc.Events[ei]))
 		line := childLine{T: "res", Case: ci, Ev: ei}
 		select {
@@ -158,6 +175,7 @@ func runCaseInChild(tc *testCase, ci int, from int, onlyOne bool, io *core.Child
 			}
 		}
 		prev = cur
+		line.Us = time.Since(t0).Microseconds()
 		io.Log(line)
 		if line.Timeout || onlyOne {
 			break
